@@ -257,11 +257,11 @@ func (c *tunnelChannel) Invoke(ctx context.Context, methodName string, req, resp
 	// finished the RPC successfully (which it may do without reading the whole
 	// request); RecvMsg below then returns the response and the result.
 	if err := str.SendMsg(req); err != nil && err != io.EOF {
-		return err
+		return str.abort(err)
 	}
 	verifYield("client.invoke.afterSend")
 	if err := str.CloseSend(); err != nil && err != io.EOF {
-		return err
+		return str.abort(err)
 	}
 	err = str.RecvMsg(resp)
 	if err != nil {
@@ -883,6 +883,17 @@ func (st *tunnelClientStream) acceptServerFrame(frame tunnelpb.ServerToClientFra
 			st.finishStream(err, nil)
 		}
 	}
+}
+
+// abort makes sure the stream is finished before the given error is returned
+// to the caller of a unary RPC. A failed send can return while the stream is
+// still being finished by another goroutine (for example the one that watches
+// the RPC's context), which fills in the grpc.Header and grpc.Trailer call
+// option targets; the caller may read those as soon as the call has returned.
+func (st *tunnelClientStream) abort(err error) error {
+	st.cancelStream(err)
+	<-st.doneSignal
+	return err
 }
 
 func (st *tunnelClientStream) cancelStream(err error) {
